@@ -2,7 +2,7 @@
 use crate::jose_util::*;
 use crate::rng::Rng;
 use identity_jose::jws::{
-  CompactJwsEncoder, Decoder, FlattenedJwsEncoder, GeneralJwsEncoder, JwsVerifierFn, Recipient, VerificationInput,
+  CharSet, CompactJwsEncoder, CompactJwsEncodingOptions, Decoder, FlattenedJwsEncoder, GeneralJwsEncoder, JwsVerifierFn, Recipient, VerificationInput,
 };
 use identity_jose::jwk::Jwk;
 use std::io::Write;
@@ -67,7 +67,20 @@ pub fn run(args: &[&str]) -> String {
     "compact" if hs.len() == 1 && hs[0].is_some() => {
       let Some(b) = built else { return "bad-request".into() };
       let ok = CompactJwsEncoder::new(b"payload", b[0].as_ref().unwrap()).is_ok();
-      fail(if ok { "ok" } else { "err" }.into(), judge(ok, &hs[0], &None, "CompactJwsEncoder::new"))
+      // the header policy does not depend on the encoding options (the payload passes both character sets)
+      let mut f = judge(ok, &hs[0], &None, "CompactJwsEncoder::new");
+      for (name, o) in [
+        ("Detached", CompactJwsEncodingOptions::Detached),
+        ("NonDetached/Default", CompactJwsEncodingOptions::NonDetached { charset_requirements: CharSet::Default }),
+        ("NonDetached/UrlSafe", CompactJwsEncodingOptions::NonDetached { charset_requirements: CharSet::UrlSafe }),
+      ] {
+        let ok2 = CompactJwsEncoder::new_with_options(b"payload", b[0].as_ref().unwrap(), o).is_ok();
+        f = f.or(judge(ok2, &hs[0], &None, &format!("CompactJwsEncoder::new_with_options({})", name)));
+        if ok2 != ok && f.is_none() {
+          f = Some(format!("policy-depends-on-encoding-options:new_with_options({}) {} the header CompactJwsEncoder::new {}", name, if ok2 { "accepts" } else { "rejects" }, if ok { "accepts" } else { "rejects" }));
+        }
+      }
+      fail(if ok { "ok" } else { "err" }.into(), f)
     }
     "general" if hs.len() % 2 == 0 && hs.len() >= 2 => {
       let Some(b) = built else { return "bad-request".into() };
@@ -178,14 +191,14 @@ fn hdr_tok(alg: &str, b64: &str, crit: &str, fields: &str, custom: &str) -> Stri
 pub fn gen(thorough: bool, seed: u64, out: &mut impl Write) {
   let algs = ["-", "EdDSA"];
   let b64s = ["-", "t", "f"];
-  let crits = ["-", "=", "b64", "b64,b64", "alg", "exp", "x-unknown", "x5t#S256", "kid", "b64,exp", "nonce"];
+  let crits = ["-", "=", "b64", "b64,b64", "alg", "exp", "x-unknown", "x5t#S256", "kid", "b64,exp", "nonce", "B64", "b64,B64", "ALG", "x5t#s256"];
   let shared = [("-", "-"), ("kid", "-"), ("-", "x"), ("typ,nonce", "-"), ("x5t_s256", "y")];
   // full decision table: protected x unprotected
   let mut prot = vec!["_".to_string()];
   for a in algs {
     for b in b64s {
       for c in crits {
-        for (f, x) in [("-", "-"), ("kid", "-"), ("kid", "x"), ("nonce,typ", "-")] {
+        for (f, x) in [("-", "-"), ("kid", "-"), ("kid", "x"), ("nonce,typ", "-"), ("-", "B64")] {
           prot.push(hdr_tok(a, b, c, f, x));
         }
       }
@@ -246,7 +259,7 @@ pub fn gen(thorough: bool, seed: u64, out: &mut impl Write) {
   // random header pairs over all fields
   let mut r = Rng::new(seed ^ 0xC11);
   let fields = ["jku", "jwk", "kid", "x5u", "x5c", "x5t", "x5t_s256", "typ", "cty", "url", "nonce"];
-  let customs = ["x", "y", "exp", "kid", "x5t#S256", "crit"];
+  let customs = ["x", "y", "exp", "kid", "x5t#S256", "crit", "B64", "Kid"];
   let n = if thorough { 40_000 } else { 4_000 };
   let mut rh = |r: &mut Rng, prot: bool| -> String {
     if r.chance(1, 10) {
